@@ -581,6 +581,7 @@ fn cmd_sections(a: &str) -> String {
     };
     guard(|| {
         let same = reserialised_sections_equal(ev.clone());
+        let ev_again = ev.clone();
         let mut reader = Reader::new(Script::new(ev));
         let mut out = vec![];
         if !same {
@@ -609,6 +610,15 @@ fn cmd_sections(a: &str) -> String {
                     }
                     out.push(show_sitem(&x))
                 }
+            }
+        }
+        if ended {
+            let n = out.iter().filter(|x| x.starts_with("S(") || x.starts_with("E(")).count();
+            let cnt = Reader::new(Script::new(ev_again.clone())).sections().count();
+            let last = Reader::new(Script::new(ev_again)).sections().last().map(|x| show_sitem(&x));
+            let want = out.iter().rev().find(|x| x.starts_with("S(") || x.starts_with("E(")).cloned();
+            if cnt != n || last != want {
+                out.push(format!("NOTEQUAL-iter count={} last={:?}", cnt, last));
             }
         }
         out.push(if ended { "end".into() } else { "cap".into() });
@@ -794,6 +804,28 @@ fn cmd_step(hdr: &str, recs: &str) -> String {
                         Some(Err(e)) => out2.push(format!("E({})", show_sterr(&e))),
                     }
                 }
+            }
+        }
+        // the iterator's other consuming methods (an impl may override them) must agree with next(): C04/C07 are about the
+        // items of the iteration, however it is consumed
+        if ended {
+            let item = |x: Result<(ContiguousIntervalPair, DataRecord), stepthrough::Error>| match x {
+                Ok((p, d)) => format!("P({};{})", show_pair(&p), show_drec(&d)),
+                Err(e) => format!("E({})", show_sterr(&e)),
+            };
+            let n = out.len() - 1;
+            let fresh = || sec.stepthrough_with_data();
+            let (lo, hi) = match fresh() {
+                Ok(it) => it.size_hint(),
+                Err(_) => (0, Some(0)),
+            };
+            let cnt = fresh().map(|it| it.count()).unwrap_or(0);
+            let last = fresh().ok().and_then(|it| it.last()).map(item);
+            let second = fresh().ok().and_then(|mut it| it.nth(1)).map(item);
+            if lo > n || hi.map_or(false, |h| h < n) || cnt != n || last.as_ref() != (if n > 0 { out.get(n - 1) } else { None })
+                || second.as_ref() != (if n > 1 { out.get(1) } else { None })
+            {
+                return format!("NOTEQUAL-iter size_hint=({},{:?}) count={} last={:?} nth1={:?} VS {}", lo, hi, cnt, last, second, out.join(" "));
             }
         }
         if ended != ended2
